@@ -189,6 +189,16 @@ def chk_methods(inp):
     if not numpy.array_equal(m1, m2):
         return {"message": "CovarianceMatrix.make_covariance_matrix twice on the same object gives different matrices"}
     for cls, kw in ((aotools.PhaseScreenVonKarman, {"n_columns": 2}), (aotools.PhaseScreenKolmogorov, {"stencil_length_factor": 2})):
+        # frames handed out earlier stay what they were when later rows are added
+        k_ = cls(8, 0.1, 0.2, 20., random_seed=5, **kw)
+        kept, snaps = [], []
+        for _ in range(5):
+            f = k_.add_row(); kept.append(f); snaps.append(f.copy())
+        kept.append(k_.scrn); snaps.append(k_.scrn.copy())
+        k_.add_row(); k_.add_row()
+        for i, (f, s0) in enumerate(zip(kept, snaps)):
+            if not numpy.array_equal(f, s0):
+                return {"message": "%s: the screen returned by call %d was modified by later add_row() calls (result aliases a buffer that is rewritten)" % (cls.__name__, i)}
         a = cls(8, 0.1, 0.2, 20., random_seed=3, **kw)
         b = cls(8, 0.1, 0.2, 20., random_seed=3, **kw)
         for _ in range(3):
